@@ -1,5 +1,9 @@
-"""C03: decided by spec/Walker.tla (exhaustive TLC) + trace validation of the real walker/pool (see vlib/walker_engine.py)."""
+"""C03: walker level (Walker.tla exhaustive + trace validation of the real walker/pool under controlled schedules) and CLI level
+(the hook events of real builds with 1..4 workers in both load_outputs modes validated against spec/Pipeline.tla: a target is hashed
+only after all its dependencies are done, one command start per target and build, never more tasks than num_workers)."""
 from vlib import walker_engine
+from vlib.checks import _hist
 
 def run(chk, tmp, replay=None):
     walker_engine.run(chk, tmp, "C03")
+    _hist.run(chk, tmp, "C03")
